@@ -73,6 +73,9 @@ impl EnforcementState {
 }
 
 impl SimpleValidator {
+    // policy values named in contracts shared with the units that only see `Arc<dyn Validator>`
+    pub open spec fn vp_max_routing_fee_msat(&self) -> u64 { self.policy.max_routing_fee_msat }
+    pub open spec fn vp_max_feerate_percentage(&self) -> u8 { self.policy.max_feerate_percentage }
 
 //@fn vls-core/src/policy/simple_validator.rs :: impl SimpleValidator :: validate_expiry props=C05
     requires current_height <= 0x7fff_ffff,
@@ -157,22 +160,7 @@ impl SimpleValidator {
 //@end
 
 //@fn vls-core/src/policy/simple_validator.rs :: impl Validator for SimpleValidator :: validate_payment_balance props=C06
-    requires
-        // assumption: msat amounts stay below 2^62 (the total bitcoin supply is about 2^61 msat); beyond it the unchecked
-        // u64 additions in this function wrap (towards refusal) in release builds and panic in debug builds
-        incoming_msat <= MSAT_BOUND, outgoing_msat <= MSAT_BOUND, self.policy.max_routing_fee_msat <= MSAT_BOUND,
-        invoiced_amount_msat.is_some() ==> invoiced_amount_msat->Some_0 <= MSAT_BOUND,
-    ensures
-        // C06: what goes out for a payment hash is covered by what comes in plus the approved amount plus the fee allowance;
-        // without an approved invoice the allowance is zero (unbacked payments are refused)
-        r.is_ok() && vx_strict(T_policy_routing_balanced) ==> outgoing_msat <= incoming_msat
-            + (match invoiced_amount_msat { Some(a) => a + self.policy.max_routing_fee_msat, None => 0 }),     //[C06.balance.covered]
-        // and the routing fee actually paid stays within the configured percentage of the invoice
-        r.is_ok() && vx_strict(T_policy_htlc_fee_range) && invoiced_amount_msat.is_some()
-            && invoiced_amount_msat->Some_0 + incoming_msat <= outgoing_msat ==>
-            (outgoing_msat - invoiced_amount_msat->Some_0 - incoming_msat) * 100
-                / (if invoiced_amount_msat->Some_0 >= 1 { invoiced_amount_msat->Some_0 as int } else { 1 })
-                <= self.policy.max_feerate_percentage,                                                         //[C06.balance.fee-percentage]
+//@include frag/c/sv_validate_payment_balance.rs
 //@sub /\.ok_or\(policy_error\(/ => .ok_or(policy_error::<u64, &str>(
 //@sub /self\.policy\.max_feerate_percentage\.into\(\)/ => (self.policy.max_feerate_percentage as u64)
 //@end
